@@ -5,6 +5,12 @@
 //!                (the sliding counter decides this from a float-valued wait estimate);
 //!   `@woke=1|0` on every later poll: whether the future's waker has fired since the previous poll
 //!                (while the caller sleeps inside `acquire()` the only waker holder is the sleep timer).
+//!
+//! The wrapped service is the strict scripted service (`inner_call c k tag=… ready=0|1`: `ready=0` = called on an
+//! instance that had not been polled ready). `manual busy ms=<n>`: the wrapped service (every instance, fresh clones
+//! too) answers `Pending` to `poll_ready` until n ms from now (a saturated backend; `ms=0` ends it); a caller that
+//! arrives meanwhile finds `poll_ready` pending and gives up (`result c notready`). `manual dropsvc`: the service
+//! handle (the only one the adapter holds; the layer is gone after construction) is dropped, call futures live on.
 use crate::world::*;
 use std::future::Future;
 use std::pin::Pin;
@@ -16,7 +22,10 @@ use tower::{Layer, Service};
 use tower_resilience_ratelimiter::{RateLimiter, RateLimiterLayer, RateLimiterServiceError, WindowType};
 
 pub struct Adapter {
-    svc: RateLimiter<Inner>,
+    /// `None` after `manual dropsvc`
+    svc: Option<RateLimiter<Inner>>,
+    /// readiness state of the wrapped service (not a handle of the rate limiter)
+    inner: Arc<Mutex<InnerShared>>,
 }
 
 impl Adapter {
@@ -33,7 +42,9 @@ impl Adapter {
             .window_type(wt)
             .build();
         // the limiter (period_start / bucket_start = now) is created here, at t = 0 of the case
-        Adapter { svc: layer.layer(Inner::new()) }
+        let inner = Inner::strict("");
+        let shared = inner.shared.clone();
+        Adapter { svc: Some(layer.layer(inner)), inner: shared }
     }
 }
 
@@ -99,8 +110,24 @@ impl<F: Future<Output = String>> Future for Observed<F> {
 }
 
 impl Mw for Adapter {
+    fn manual(&mut self, what: &str, kv: &Kv) {
+        match what {
+            "dropsvc" => {
+                self.svc = None;
+            }
+            "busy" => {
+                let until = tokio::time::Instant::now() + Duration::from_millis(kv.u64("ms", 0));
+                self.inner.lock().unwrap().busy_until = Some(until);
+            }
+            _ => {}
+        }
+    }
     fn arrive(&mut self, c: usize, kv: &Kv) -> Option<CallFut> {
-        let mut svc = self.svc.clone();
+        let Some(svc) = self.svc.as_ref() else {
+            log_raw("noop".into());
+            return None;
+        };
+        let mut svc = svc.clone();
         let req = Req::new(c, kv);
         match poll_ready_once(&mut svc) {
             std::task::Poll::Ready(Ok(())) => {}
